@@ -438,7 +438,10 @@ func c07StringOpt(c *rt.Ctx, sub0 int) {
 	// members whose types decode themselves (UnmarshalText / UnmarshalJSON) and are narrower than a word
 	opt = ""
 	types = append(types, mk([]reflect.Type{reflect.TypeOf(zoo.UT8(0)), reflect.TypeOf(zoo.UT8(0)), reflect.TypeOf(zoo.UJ8(0))}), mk([]reflect.Type{reflect.TypeOf(zoo.UT16{}), reflect.TypeOf(zoo.UT8(0))}),
-		mk([]reflect.Type{reflect.TypeOf(zoo.UJ8(0))}), mk([]reflect.Type{reflect.TypeOf(new(zoo.UT8)), reflect.TypeOf(zoo.UT8(0))}))
+		mk([]reflect.Type{reflect.TypeOf(zoo.UJ8(0))}), mk([]reflect.Type{reflect.TypeOf(new(zoo.UT8)), reflect.TypeOf(zoo.UT8(0))}),
+		// unmarshalers of slice, map, string, array and byte-slice kind: null resets each differently
+		mk([]reflect.Type{reflect.TypeOf(zoo.UTSl{}), reflect.TypeOf(zoo.UT8(0)), reflect.TypeOf(zoo.UTMp{})}), mk([]reflect.Type{reflect.TypeOf(zoo.UTBy{}), reflect.TypeOf(zoo.UTStr("")), reflect.TypeOf(zoo.UTArr{})}),
+		mk([]reflect.Type{reflect.TypeOf(zoo.UJSl{}), reflect.TypeOf(zoo.UJMp{}), reflect.TypeOf(new(zoo.UTSl))}), mk([]reflect.Type{reflect.TypeOf([]zoo.UTSl{}), reflect.TypeOf(map[string]zoo.UTSl{})}))
 	payload := func(t reflect.Type) string {
 		switch t.Kind() {
 		case reflect.Bool:
